@@ -511,7 +511,8 @@ def run_sites(R, F, fns, rule, exceptions=None, S=None, skip_kinds=()):
             # exceptions are looked up by (function, site kind); the ordinal only orders the candidates, because ordinals
             # shift when code is added, removed or inlined.  Every premise is site-specific, so a premise that was
             # written for another site of the same kind fails here.
-            cands = sorted(((k3, v) for (g3, kk, k3), v in exceptions.items() if g3 == fn.gpath and kk == kind), key=lambda kv: (kv[0] != n, str(kv[0])))
+            owner = fn.gpath.split('::{closure')[0]      # a closure may use the exceptions written for its parent
+            cands = sorted(((k3, v) for (g3, kk, k3), v in exceptions.items() if g3 in (fn.gpath, owner) and kk == kind), key=lambda kv: (kv[0] != n, str(kv[0])))
             ex = cands[0][1] if cands else None
             goals = goals_for(an, b, kind)
             verdict = None
